@@ -333,6 +333,8 @@ def _dump_single_output(
     output: Any,
     store: dict[str, StoreType],
 ) -> tuple[Any, ...]:
+    if isinstance(output, _StoredOutput):  # loaded from the store: already picked and stored
+        return output.values
     if isinstance(func.output_name, tuple):
         new_output = []  # output in same order as func.output_name
         for output_name in func.output_name:
@@ -743,6 +745,16 @@ class _StoredValue(NamedTuple):
     exists: bool
 
 
+class _StoredOutput(NamedTuple):
+    """The stored values of a function without MapSpec, one per output name.
+
+    They are already picked from the function's return value, so the output picker
+    must not be applied to them again.
+    """
+
+    values: tuple[Any, ...]
+
+
 def _load_from_store(
     output_name: OUTPUT_TYPE,
     store: dict[str, StoreType],
@@ -787,7 +799,8 @@ def _execute_single(
     # Load the output if it exists
     output, exists = _load_from_store(func.output_name, store, return_output=True)
     if exists:
-        return output
+        n_outputs = len(at_least_tuple(func.output_name))
+        return _StoredOutput(tuple(output) if n_outputs > 1 else (output,))
 
     # Otherwise, run the function
     _load_arrays(kwargs)
